@@ -185,7 +185,8 @@ def requests_for(w, pairs):
 
 
 TIERS = {"quick": {"worlds": [("W1", 30, 4), ("W1f", 3, 1), ("W2", 20, 2), ("W3", 20, 2), ("W4", 6, 1)]},
-         "thorough": {"worlds": [("W1", 200, 12), ("W1f", 20, 1), ("W2", 200, 6), ("W3", 200, 4), ("W4", 30, 1)]}}
+         "thorough": {"worlds": [("W1", 200, 40), ("W1f", 20, 4), ("W1c", 60, 4), ("W2", 200, 20), ("W3", 200, 20),
+                                 ("W4", 30, 4)]}}
 
 
 def make_tasks(tier):
